@@ -29,12 +29,15 @@ MaxLen(S, i) == IF \E j \in 1..Len(S.fields) : /\ Entry(S.name, S.fields[j].name
                                                /\ Entry(S.name, S.fields[j].name)[4] = S.fields[i].name
                                                /\ SumWidths(FieldAtoms(S.fields[j])) = 1
                 THEN 255 ELSE 65535
+(* the largest count of a USHORT array in the parameter block: WordCount is one byte, so all words together are at most 255 *)
+WordsLimit(S, i) == 255 - EncodeCmd(S, Pat("len", i, 0)).wc
 LenSet(S, i) == LET kind == Entry(S.name, S.fields[i].name)[3]
                 IN CASE kind \in {"str", "bytes", "rest"} -> {L \in Lens : L <= MaxLen(S, i)}
                      [] kind = "pad" -> PadLens
                      [] kind = "pad0" -> {0, 1}
                      [] kind = "wz" -> ArrLens \cup {20}
-                     [] kind \in {"ranges", "words"} -> ArrLens
+                     [] kind = "ranges" -> ArrLens
+                     [] kind = "words" -> ArrLens \cup {WordsLimit(S, i) - 1, WordsLimit(S, i)}   \* up to the top of the domain
                      [] kind = "dir43" -> {0, 1, 2}
                      [] kind = "dialects" -> DialectCounts
                      [] OTHER -> {}
